@@ -9,6 +9,7 @@ import hashlib
 import json
 import os
 import random
+import re
 from checklib import sh, parse_kv_line
 
 CLAUSES = {
@@ -26,10 +27,94 @@ CLAUSES = {
 
 
 
+CANON = ["finished_state_precedes", "finished_state_sift_down", "finished_state_sift_up", "finished_state_pop",
+         "finished_state_erase", "ts_query_cursor__heapify_finished_states", "ts_query_cursor__push_finished_state",
+         "capture_list_pool_new", "capture_list_pool_reset", "capture_list_pool_delete", "capture_list_pool_get_mut",
+         "capture_list_pool_is_empty", "capture_list_pool_acquire", "capture_list_pool_release"]
+
+
+def static_functions(src):
+    """(name, return type, parameter text, body) of the static functions of a C file."""
+    out = []
+    for m in re.finditer(r"^static\s+(?:inline\s+)?([A-Za-z_][\w\s\*]*?)\b(\w+)\s*\(([^)]*)\)\s*\{", src, re.M):
+        depth, k = 1, m.end()
+        while k < len(src) and depth:
+            depth += {"{": 1, "}": -1}.get(src[k], 0)
+            k += 1
+        out.append((m.group(2), " ".join(m.group(1).split()), " ".join(m.group(3).split()), src[m.end():k]))
+    return out
+
+
+def resolve_static_names(src):
+    """The unity driver calls static functions by name.  When they were RENAMED (a harmless rewrite) find
+    them again by signature and a body feature and return -D mappings canonical -> current name."""
+    fs = static_functions(src)
+    names = {f[0] for f in fs}
+    found = {}
+
+    def pick(canon, pred):
+        if canon in names:
+            return
+        c = [f for f in fs if pred(f)]
+        if len(c) == 1:
+            found[canon] = c[0][0]
+
+    heap3 = [f for f in fs if re.fullmatch(r"QueryStateList \*\w+, uint32_t \w+, const CaptureListPool \*\w+", f[2])]
+    pick("finished_state_precedes", lambda f: f[2].count("const QueryState *") == 2 and "CaptureListPool" in f[2])
+    if len(heap3) == 3:
+        others = lambda f: [g[0] for g in heap3 if g[0] != f[0]]
+        erase = [f for f in heap3 if all(re.search(r"\b%s\b" % o, f[3]) for o in others(f))]
+        rest = [f for f in heap3 if f not in erase]
+        down = [f for f in rest if re.search(r"2 \* \w+ \+ 1|<< 1", f[3])]
+        up = [f for f in rest if f not in down]
+        for canon, c in (("finished_state_erase", erase), ("finished_state_sift_down", down), ("finished_state_sift_up", up)):
+            if canon not in names and len(c) == 1:
+                found[canon] = c[0][0]
+    pick("finished_state_pop", lambda f: re.fullmatch(r"QueryStateList \*\w+, const CaptureListPool \*\w+", f[2]) is not None)
+    pick("ts_query_cursor__heapify_finished_states", lambda f: re.fullmatch(r"TSQueryCursor \*\w+", f[2]) and "finished_states_heap_size++" in f[3].replace(" ", ""))
+    pick("ts_query_cursor__push_finished_state", lambda f: "QueryState *" in f[2] and "TSQueryCursor *" in f[2] and "heap_insert_order" in f[3] and "next_finished_state_id" in f[3])
+    pick("capture_list_pool_new", lambda f: f[1] == "CaptureListPool" and f[2] in ("void", ""))
+    pick("capture_list_pool_reset", lambda f: f[1] == "void" and re.fullmatch(r"CaptureListPool \*\w+", f[2]) and "free_capture_list_count =" in f[3])
+    pick("capture_list_pool_delete", lambda f: f[1] == "void" and re.fullmatch(r"CaptureListPool \*\w+", f[2]) and "array_delete" in f[3] and "free_capture_list_count =" not in f[3])
+    pick("capture_list_pool_get_mut", lambda f: f[1] == "CaptureList *" and "CaptureListPool *" in f[2] and not f[2].startswith("const"))
+    pick("capture_list_pool_is_empty", lambda f: f[1] == "bool" and re.fullmatch(r"const CaptureListPool \*\w+", f[2]) is not None)
+    pick("capture_list_pool_acquire", lambda f: f[1] in ("uint32_t", "uint16_t") and re.fullmatch(r"CaptureListPool \*\w+", f[2]) is not None)
+    pick("capture_list_pool_release", lambda f: f[1] == "void" and re.fullmatch(r"CaptureListPool \*\w+, uint32_t \w+", f[2]) is not None)
+    missing = [c for c in CANON if c not in names and c not in found]
+    return found, missing
+
+
+def cunit_tolerant(ctx):
+    """ctx.cunit, but static functions the driver calls are looked up again by signature when they were renamed."""
+    repo = os.environ.get("VERIF_REPO", "/repo")
+    try:
+        src = open(os.path.join(repo, "lib/src/query.c")).read()
+    except OSError:
+        src = ""
+    found, missing = resolve_static_names(src)
+    if not found and not missing:
+        return ctx.cunit("cunit_c11")
+    if missing:
+        ctx.oblige("build:tsv-cunit_c11", False, "static functions called by the unity driver not found (renamed beyond recognition or removed): " + ", ".join(missing))
+        return None
+    root = os.path.dirname(os.path.dirname(os.path.abspath(__file__)))
+    exe = os.path.join(ctx.workdir, "tsv-cunit_c11")
+    cmd = ["cc", "-std=c11", "-O1", "-w", "-D_POSIX_C_SOURCE=200112L", "-D_DEFAULT_SOURCE",
+           "-DTSV_REPO_LIB_C=\"%s/lib/src/lib.c\"" % repo, "-I", repo + "/lib/src", "-I", repo + "/lib/src/wasm", "-I", repo + "/lib/include"]
+    cmd += ["-D%s=%s" % (c, n) for c, n in sorted(found.items())]
+    cmd += [os.path.join(root, "harness", "csrc", "cunit_c11.c"), "-o", exe]
+    rc, out = sh(cmd)
+    ctx.notes.append("unity driver: renamed static functions resolved by signature: %s" % found)
+    if rc != 0:
+        ctx.oblige("build:tsv-cunit_c11", False, out[-1200:])
+        return None
+    return exe
+
+
 def unit_level(ctx, driver):
     """Function level: the ports of the finished-state heap and of the capture-list pool
     (TsVerif/C11/Heap.lean) against the REAL static functions, on random operation scripts."""
-    exe = ctx.cunit("cunit_c11")
+    exe = cunit_tolerant(ctx)
     if not exe:
         return
     rnd = random.Random(ctx.seed * 7919 + 11)
@@ -123,13 +208,6 @@ def run(ctx):
     ]
     ctx.assumptions += ["documents < 4 GiB; generated queries capture every pattern root as @r (needed to decide clause b)"]
     ctx.regen()
-    # source anchor of the hand port `nodePrecedesRange` (commit 5d2fccd)
-    try:
-        src = open(os.path.join(os.environ.get("VERIF_REPO", "/repo"), "lib/src/query.c")).read()
-    except OSError:
-        src = ""
-    ctx.oblige("tie:anchor:ts_query_cursor__node_precedes_range", "ts_query_cursor__node_precedes_range(" in src,
-               "helper not found in lib/src/query.c: the hand port TsVerif.C11.nodePrecedesRange no longer corresponds")
     ctx.prove(["TsVerif.C11.Props"], "TsVerif/C11/Audit.lean")
     driver = ctx.build_driver("tsv-c11")
     explorer = ctx.cargo_bin("c11")
@@ -151,7 +229,10 @@ def run(ctx):
         ctx.oblige("run:explorer", False, out[-800:])
         return ctx.finish()
     specs = {}
+    probe = "unknown"
     for line in open(ops):
+        if line.startswith("probe node_precedes_range "):
+            probe = line.split()[2]
         if line.startswith("spec "):
             _, cid, rest = line.rstrip("\n").split(" ", 2)
             specs[cid] = rest
@@ -206,6 +287,9 @@ def run(ctx):
                       {"case": case, "clause": clause, "spec": specs.get(case, ""), "result": kv},
                       fingerprint={"clause": clause, "kind": kind, "wild": kv.get("wild", "false"), "lang": lang,
                                    "qfree": kv.get("qfree", "-")})
+    ctx.coverage["range_test_variant_by_behavioural_probe"] = probe
+    ctx.oblige("tie:probe:capture-range-test-variant-determined", probe in ("new", "old"),
+               "the behavioural probe (captures() on the zero-width root of an empty lst document) gave no answer")
     ctx.oblige("corr:evalImpl|evalFixed=satisfies_text_predicates", corr_bad == 0, "%d disagreements" % corr_bad)
     tot_pass = sum(v["passed"] for v in per_clause.values())
     ctx.coverage.update({
